@@ -170,6 +170,62 @@ def run_cell(case, R):
                    step=step, state="wrong", decode="any")
 
 
+def run_resume_cell(case, R):
+    """verify M2 of a *resumed* exchange (only the BLE-style decode can see it): a valid resume reply that also carries an error code
+    or a wrong step number must not yield keys."""
+    from props.c01 import check_honest, run_exchange
+    from vlib.refhap import T_METHOD, T_SESSIONID
+    state, err, order = case["state"], case["err"], case["order"]
+    if state not in ("absent", "expected") and int(state) == 2:
+        state = "expected"
+    error_present = ERRORS[err] is not None
+    control = not error_present and state in ("expected", "absent")
+    R.nt(not control)
+    R.cls("step:verify-M2-resume", "control" if control else "error-cell")
+    vw = VerifyWorld({"acc_id": "AA:BB:CC:DD:EE:FF", "ios_id": "ios-id", "k": case.get("k", 0)})
+    first = run_exchange(vw, ("c04-resume", case.get("k", 0), 0), "ble")
+    got = check_honest(R, vw, first, "initial full verify")
+    if got is None:
+        return
+    sid, derive = got
+
+    def hook(acc, honest):
+        assert acc.resumed, "harness: accessory did not resume"
+        items = [(t, v) for t, v in honest if t != T_STATE]
+        head = []
+        if state != "absent":
+            head.append((T_STATE, bytes([2 if state == "expected" else int(state)])))
+        if ERRORS[err] is not None:
+            head.append((T_ERROR, ERRORS[err]))
+        items = head + items
+        if order == "reversed":
+            items.reverse()
+        return tlv_enc(items)
+    out = run_exchange(vw, ("c04-resume", case.get("k", 0), 1), "ble", hook, session_id=sid, derive=derive)
+    what = f"resumed verify-M2 state={state} error={err} order={order}"
+    if control:
+        if out["result"] is None:
+            R.fail("C04.control-cell-fails", f"{what}: {type(out['exc']).__name__}: {out['exc']}", step="verify-M2-resume")
+        return
+    if out["result"] is not None or (out["exc"] is None):
+        R.fail("C04.error-reply-succeeds", f"{what}: completed as success", step="verify-M2-resume", state="absent" if state == "absent" else ("expected" if state == "expected" else "wrong"))
+        return
+    val = out["exc"]
+    if state in ("expected", "absent"):
+        want = expected_class(err)
+        if type(val) is not want:
+            R.fail("C04.wrong-exception-class", f"{what}: raised {type(val).__name__} ({val}), documented class is {want.__name__}", step="verify-M2-resume", state=state, decode="ble")
+    elif type(val) not in ((X.InvalidError, expected_class(err)) if error_present else (X.InvalidError,)):
+        R.fail("C04.wrong-exception-class", f"{what}: raised {type(val).__name__} ({val})", step="verify-M2-resume", state="wrong", decode="ble")
+
+
+def enum_resume_table(tier):
+    for state in ["absent", "expected"] + [str(s) for s in range(0, 8) if s != 2]:
+        for err in ERRORS:
+            for order in ("spec", "reversed"):
+                yield {"state": state, "err": err, "order": order, "k": SEED}
+
+
 def enum_table(tier):
     i = 0
     for step, (exp_state, others) in STEPS.items():
@@ -199,6 +255,8 @@ SPEC = Property(
     layers=[
         Layer("protocol-table", run_cell, enumerate=enum_table, exhaustive=True,
               space="5 steps x 9 states x 13 errors x 2^|other fields| x 4 (order, decode) combinations (quick: 2 combinations for setup M4/M6)", min_nontrivial=3000),
+        Layer("resume-table", run_resume_cell, enumerate=enum_resume_table, exhaustive=True,
+              space="verify M2 of a resumed exchange: 9 states x 13 errors x 2 orders on top of a valid resume reply", min_nontrivial=200),
         *C04_BLE_LAYERS,
         *C04_IP_LAYERS,
     ],
